@@ -106,6 +106,10 @@ type wConfig struct {
 	// pbCliSerialize -> wire -> pbCliDeserialize -> dispatch (what the gRPC endpoint does), every
 	// server message pbServSerialize -> wire -> pbServDeserialize before the oracles see it.
 	Grpc []int `json:"grpc,omitempty"`
+	// Lat: store latency pattern in (virtual) microseconds: the n-th adapter call of the case sleeps
+	// Lat[n % len] before it runs, so requests issued together interleave at store-call boundaries
+	// (mem.SetLatency). Empty = the store answers instantly.
+	Lat []int `json:"lat,omitempty"`
 }
 
 var wMediaOn bool
@@ -218,6 +222,7 @@ func wBoot(cfg wConfig) *wWorld {
 	wVirt += wLastElapsed + 2*time.Second
 	time.Sleep(wVirt)
 	wCaseStart = time.Now()
+	mem.SetLatency(nil)
 	mem.A.Reset()
 	if err := store.Store.Open(1, json.RawMessage(wStoreCfg)); err != nil {
 		panic("store open: " + err.Error())
@@ -300,6 +305,7 @@ func wBoot(cfg wConfig) *wWorld {
 		w.users = append(w.users, &wUser{uid: u.Uid(), level: lvl, token: tok})
 		time.Sleep(time.Millisecond)
 	}
+	mem.SetLatency(cfg.Lat)
 	return w
 }
 
@@ -325,7 +331,7 @@ func (w *wWorld) stopHub() {
 	usersShutdown()
 	// terminated topics linger for a few (virtual) seconds to reject stragglers
 	time.Sleep(idleMasterTopicTimeout + time.Second)
-	synctest.Wait()
+	wQuiesce()
 }
 
 // restart simulates a process restart on the same database: all sessions are dropped,
@@ -357,9 +363,22 @@ func (w *wWorld) sweep() bool {
 
 func (w *wWorld) settle() {
 	time.Sleep(time.Millisecond)
-	synctest.Wait()
+	wQuiesce()
 	if w.sweep() {
 		time.Sleep(time.Millisecond)
+		wQuiesce()
+	}
+}
+
+// wQuiesce waits until every goroutine of the bubble is blocked on something other than the
+// store's (virtual) latency: synctest.Wait alone returns while a request sleeps inside an adapter call.
+func wQuiesce() {
+	synctest.Wait()
+	for n := 0; mem.Sleeping() > 0; n++ {
+		if n > 1_000_000 {
+			panic("VERIF-HARNESS: store calls never finish")
+		}
+		time.Sleep(5 * time.Microsecond)
 		synctest.Wait()
 	}
 }
@@ -373,9 +392,9 @@ func (w *wWorld) tick(d time.Duration) {
 			step = 20 * time.Second
 		}
 		time.Sleep(step)
-		synctest.Wait()
+		wQuiesce()
 		if w.sweep() {
-			synctest.Wait()
+			wQuiesce()
 		}
 		d -= step
 		now := time.Now()
@@ -823,6 +842,7 @@ var wLastElapsed time.Duration
 // wEmergencyStop makes every goroutine that runs on timers exit, without waiting for anything.
 func wEmergencyStop() {
 	defer func() { recover() }()
+	mem.SetLatency(nil)
 	w := wCur
 	if w != nil {
 		if w.watchdog != nil {
